@@ -53,13 +53,28 @@ Definition mt_map1 (cs : list ((Z * dinfo) * list (Z * minfo))) : list ((Z * Z) 
 Definition step2 (m : list ((Z * Z) * Z)) (b : (Z * Z * Z) * Z) := set (bkey b) ((getz (bkey b) m + snd b) mod two64) m.
 Definition mt_map2 (bs : list ((Z * Z * Z) * Z)) : list ((Z * Z) * Z) := fold_left step2 bs [].
 
-Definition validate (g : genesis) : bool :=
+(** the repaired loop refuses an overflow instead of wrapping *)
+Fixpoint mt_map2c (bs : list ((Z * Z * Z) * Z)) (m : list ((Z * Z) * Z)) : option (list ((Z * Z) * Z)) :=
+  match bs with
+  | [] => Some m
+  | b :: bs' => if two64 - 1 - getz (bkey b) m <? snd b then None
+                else mt_map2c bs' (set (bkey b) (getz (bkey b) m + snd b) m)
+  end.
+
+(** [validate false] is the code's ValidateGenesis (the balance sums wrap).  [validate true] is a stricter
+    variant that is NOT in the tree (owners are addresses, no sum exceeds uint64 — what InitGenesis relies on);
+    every EXPORTED genesis passes both (proved). *)
+Definition validate (fx : bool) (g : genesis) : bool :=
   let known := map (fun c => fst (fst c)) (g_cols g) in
   let m1 := mt_map1 (g_cols g) in
-  let m2 := mt_map2 (g_bals g) in
-  forallb (fun b => existsb (Z.eqb (snd (fst (fst b)))) known) (g_bals g)     (* unknown mt denom *)
-  && (Z.of_nat (length m1) =? Z.of_nat (length m2))                          (* mt count mismatch *)
-  && forallb (fun e => snd e =? getz (fst e) m2) m1.                          (* mt supply mismatch *)
+  match (if fx then mt_map2c (g_bals g) [] else Some (mt_map2 (g_bals g))) with
+  | None => false
+  | Some m2 =>
+      (if fx then forallb (fun b => 0 <=? fst (fst (fst b))) (g_bals g) else true)   (* invalid owner address *)
+      && forallb (fun b => existsb (Z.eqb (snd (fst (fst b)))) known) (g_bals g)     (* unknown mt denom *)
+      && (Z.of_nat (length m1) =? Z.of_nat (length m2))                          (* mt count mismatch *)
+      && forallb (fun e => snd e =? getz (fst e) m2) m1                           (* mt supply mismatch *)
+  end.
 
 (** ** InitGenesis *)
 Definition old_mts (d : Z) (cs : list col) : list (Z * minfo) :=
@@ -92,8 +107,8 @@ Fixpoint add_bals (bs : list ((Z * Z * Z) * Z)) (sup : list ((Z * Z) * Z)) (bal 
            end
   end.
 
-Definition import (g : genesis) : option state :=
-  if negb (validate g) then None
+Definition import (fx : bool) (g : genesis) : option state :=
+  if negb (validate fx g) then None
   else
     let '(cs, dsup, seq) := fold_left add_col (g_cols g) ([], [], 1) in
     match add_bals (g_bals g) [] [] with
@@ -132,17 +147,26 @@ Definition invb (s : state) : bool :=
 
 (** ** Correspondence and the C12 predicate on the implementation's observations *)
 Record run := mkRun {
-  r_sA : state; r_gA : genesis; r_val : bool; r_imp : Z; r_sB : option state; r_gB : option genesis
+  r_sA : state; r_gA : genesis; r_val : bool; r_imp : Z; r_sB : option state; r_gB : option genesis;
+  r_t : option (genesis * bool * Z)       (* a tampered copy of the export: the genesis, ValidateGenesis = nil, InitGenesis 0 ok / 2 panic *)
 }.
 Record case := mkCase { c_runs : list run }.
+
+(** the tree under check does NOT contain that change (it was not taken: C12 quantifies over exported
+    geneses of reachable states, not over hand-made ones); the switch documents what would close the gap *)
+Definition fixed_v : bool := false.
 
 Definition corr_run (r : run) : bool :=
   invb (r_sA r)
   && eqb (export (r_sA r)) (r_gA r)
-  && eqb (validate (r_gA r)) (r_val r)
-  && match import (r_gA r) with
+  && eqb (validate fixed_v (r_gA r)) (r_val r)
+  && match import fixed_v (r_gA r) with
      | None => negb (r_imp r =? 0)
      | Some b => (r_imp r =? 0) && eqb (r_sB r) (Some b) && eqb (r_gB r) (Some (export b))
+     end
+  && match r_t r with
+     | Some (tg, tv, ti) => eqb (validate fixed_v tg) tv && eqb (match import fixed_v tg with Some _ => true | None => false end) (ti =? 0)
+     | None => true
      end.
 
 (** clause codes: 1 export does not validate; 2 import panics; 3 second export differs;
